@@ -1615,6 +1615,28 @@ def part_explore(ck, m, tier):
     ck.count("explore_paths_checked", total)
 
 
+# =========================================================================== (E) corpus regression scripts
+
+
+def part_corpus(ck):
+    """Stand-alone minimal reproductions of the defects found by this check (exit code 1 = violated)."""
+    import subprocess
+    import sys
+    d = common.CORPUS / "C05"
+    for p in sorted(d.glob("repro_*.py")):
+        try:
+            q = subprocess.run([sys.executable, str(p)], capture_output=True, text=True, timeout=60,
+                               env=dict(__import__("os").environ, PYTHONPATH=str(common.REPO / "src")))
+            code, tail = q.returncode, (q.stdout + q.stderr).strip().splitlines()[-1:]
+        except subprocess.TimeoutExpired:
+            code, tail = 1, ["timeout (hang)"]
+        ck.note_case(("corpus", p.name), nontrivial=True)
+        ck.count("corpus_scripts")
+        if code != 0:
+            ck.violation("corpus:" + p.name, f"regression script {p.name} reports a violation: {' '.join(tail)[:200]}",
+                         {"relation": "minimal reproduction of an earlier finding", "script": str(p)})
+
+
 # =========================================================================== entry
 
 
@@ -1645,7 +1667,9 @@ def run(tier):
                "payload stream valid.  (C) all well-formed StreamItemQueue scripts up to a length bound.  non-trivial = the run "
                "produced at least 2 work-queue events / 2 payloads / 1 delivered batch")
     import os
-    parts = os.environ.get("VERIF_C05_PARTS", "wq,e2e,siq,explore").split(",")
+    parts = os.environ.get("VERIF_C05_PARTS", "corpus,wq,e2e,siq,explore").split(",")
+    if "corpus" in parts:
+        part_corpus(ck)
     if "wq" in parts:
         part_wq(ck, m, tier)
     if "e2e" in parts:
